@@ -77,7 +77,13 @@ static inline int cur_vt() { int v = sched_logical(); return v < 0 ? 0 : v; }
 static int fault_check(int kind) {
   sched_os_point(kind);      // another thread may run between the allocator's decision and the OS call taking effect
   int vt = cur_vt(); int op = g_ctx_op[vt & 31];
-  if (g_persist && (g_persist_kind == -1 || g_persist_kind == kind)) { g_faults_fired++; return g_persist_err; }
+  if (g_persist && (g_persist_kind == -1 || g_persist_kind == kind)) {
+    // EAGAIN means "temporarily": the allocator is entitled to retry until it goes away, so even a persistent fault
+    // delivers it at most three times in a row to one thread and then lets one call through
+    static int eagain_run[32];
+    if (g_persist_err == EAGAIN && ++eagain_run[vt & 31] > 3) { eagain_run[vt & 31] = 0; return 0; }
+    g_faults_fired++; return g_persist_err;
+  }
   for (size_t i = 0; i < g_faults.size(); i++) {
     FaultSpec& f = g_faults[i];
     if (f.vt != -1 && f.vt != vt) continue;
